@@ -30,8 +30,8 @@ prop("C04", opts={"memprop": "C04", "shadowprop": "C04"},
      required_probes=["add_existing_path", "change_not_owner", "remove_not_owner", "change_on_method", "setcall_wrong_kind", "set_on_fetchonly", "empty_path", "get"])
 
 prop("C05",
-     mix=[("c05", "default", 3), ("c05", "small", 1), ("c05", "batch1", 1)],
-     quick_mix=[("c05", "default", 1)],
+     mix=[("c05", "default", 3), ("c05", "small", 1), ("c05", "batch1", 1), ("c11x", "wbuf", 1), ("c11x", "default", 0.5)],
+     quick_mix=[("c05", "default", 2), ("c11x", "wbuf", 1)],
      quick_s=25, thorough_s=600, opts={"memprop": "C05"},
      rule="seeded plans that bring a peer into a protocol state (owner with subscribers, fetcher, owner or caller of requests in flight, mid-message) and end its connection by FIN, reset, hang-up or a "
           "protocol violation at a drawn byte; model consequences for everyone else plus descriptor-table and poisoned-arena checks; non-trivial: the ended peer had state others depend on; distinct by trace hash",
@@ -110,8 +110,8 @@ prop("C13", also=["C05/connection-not-released", "C07/.*"],
      required_probes=["http_error_status:400", "http_error_status:404", "truncated_send", "client_close:fin", "client_close:rst", "canary_ok", "idle_baseline_checked", "exit_checked"])
 
 prop("C12", also=["C10/.*"],
-     mix=[("c12", "default", 3), ("c12", "small", 1.5), ("c12", "batch1", 0.5)],
-     quick_mix=[("c12", "default", 2), ("c12", "small", 1)],
+     mix=[("c12", "default", 3), ("c12", "small", 1.5), ("c12", "batch1", 0.5), ("c19", "default", 0.7), ("c19", "big", 0.3)],
+     quick_mix=[("c12", "default", 2), ("c12", "small", 1), ("c19", "default", 0.5)],
      quick_s=25, thorough_s=600, opts={"memprop": "C12"},
      rule="seeded valid upgrades in many spellings (header order and case, extra and repeated headers, several offered protocols, HTTP/1.1 and above) followed by frame sequences over the header space (every opcode, FIN/RSV/MASK combination, "
           "non-minimal length encodings, payload lengths around 0/125/126, pings and pongs with arbitrary payloads, close frames of every status class with valid and invalid UTF-8 reasons, fragmented data and control frames) mixed with JSON-RPC "
@@ -144,8 +144,8 @@ prop("C10",
      required_probes=["fault:short_write", "fault:would_block", "fault:write_error", "flush_on_writable", "partial_in_prefix", "partial_in_payload", "partial_in_pending", "partial_in_ws_header", "buffer_overflow", "c10_frame_offered_behind_pending", "writable_again", "ws_header_16bit"])
 
 prop("C11",
-     mix=[("c11", "wbuf", 3), ("c11", "wsmall", 2), ("c11", "default", 1), ("c11", "batch1", 0.5)],
-     quick_mix=[("c11", "wbuf", 2), ("c11", "wsmall", 1), ("c11", "default", 0.5)],
+     mix=[("c11", "wbuf", 3), ("c11", "wsmall", 2), ("c11", "default", 1), ("c11", "batch1", 0.5), ("c11x", "wbuf", 1), ("c11x", "default", 1)],
+     quick_mix=[("c11", "wbuf", 2), ("c11", "wsmall", 1), ("c11", "default", 0.5), ("c11x", "wbuf", 0.7)],
      quick_s=30, thorough_s=600, opts={"memprop": "C11"},
      rule="the fetch/route workloads with a drawn subset X of 1-2 peers made faulty - send path stalled until the daemon's buffer for them is full, socket failing on read or write (EPIPE, ECONNRESET, ETIMEDOUT, EHOSTUNREACH), "
           "garbage or over-long input - connected and subscribed before the healthy peers, plus aborted and failed accepts (ECONNABORTED, EMFILE, ENFILE, ENOBUFS, ENOMEM, EPROTO, EINTR) on every listener. "
@@ -155,19 +155,19 @@ prop("C11",
      nontrivial=[["fault:would_block", "notify_add"], ["fault:write_error", "notify_add"], ["fault:sockerr", "notify_add"], ["fault:accept_failed:103"], ["fault:accept_failed:24"], ["routed_to_faulty_owner"]],
      required_probes=["fault:would_block", "fault:write_error", "fault:sockerr", "fault:stall", "routed_to_faulty_owner", "faulty_peer_dropped_by_daemon", "canary_ok", "notify_change", "owner_replied"])
 
-prop("C15", kind="c15", level="fault_enumeration", corpus=44,
+prop("C15", kind="c15", level="fault_enumeration", corpus=46,
      mix=[("c15", "default", 1), ("c15", "small", 1), ("c15", "wsmall", 1), ("c15", "batch1", 1)],
      quick_mix=[("c15", "default", 1)],
      random_mix=[("base+af", "default", 2), ("c03+af", "default", 1), ("c05+af", "default", 1), ("c01+af", "small", 1), ("c04+af", "batch1", 1), ("c16+af", "default", 0.5), ("c15h", "heapcap", 3)],
      random_mix_quick=[("base+af", "default", 1), ("c04+af", "default", 1), ("c15h", "heapcap", 1.5)],
      random_quick_s=25, random_thorough_s=500,
      quick_s=100, thorough_s=1800,
-     rule="fault enumeration: a fixed corpus of 44 short scenarios (40 of 4-14 operations each, drawn once from the base, fetch, routing, connection-end, access-control, WebSocket, HTTP, matcher, deadline and namespace generators: every request type, "
+     rule="fault enumeration: a fixed corpus of 46 short scenarios (40 of 4-14 operations each, drawn once from the base, fetch, routing, connection-end, access-control, WebSocket, HTTP, matcher, deadline and namespace generators: every request type, "
           "raw/unix/WebSocket connect and teardown, failed handshakes, routed requests with reply, timeout and disconnects, batches, authentication) is executed once to count its allocations N, then once for every k in 1..N with exactly the k-th "
           "allocation (malloc/calloc/realloc of the daemon, cJSON and zlib included) returning NULL. Oracle: no sanitizer report or crash; start-up failures end in a clean non-zero exit; until the fault the reference model, afterwards at most one response "
           "per request id and none unsolicited; requests sent after the fault's event-loop turn are answered; a fresh client is served at the end; arena, accounted heap, peer count and descriptors are back at the idle baseline after all connections closed and empty at exit. "
           "quick: the whole corpus with every k on the upstream configuration; thorough: the whole corpus on four configuration variants (table sizes, buffer sizes, event-batch size). non-trivial: the failed allocation was reached; a case is a (scenario, k) pair",
-     level_text="single-fault enumeration: for each of 40 corpus scenarios every allocation performed during the run is made to fail in turn (exhaustive for the corpus when the budget suffices; the evidence says whether it did); the daemon's real main() runs on the simulated kernel with the deterministic arena as the fault seam",
+     level_text="single-fault enumeration: for each of 46 corpus scenarios every allocation performed during the run is made to fail in turn (exhaustive for the corpus when the budget suffices; the evidence says whether it did); the daemon's real main() runs on the simulated kernel with the deterministic arena as the fault seam",
      technique="deterministic simulation with fault injection: exhaustive single-allocation-failure enumeration over a scenario corpus, arena allocator as the seam, ledger/model oracles, exact replay",
      nontrivial=[])
 
@@ -186,8 +186,8 @@ prop("C20", kind="c20", level="fault_enumeration",
      nontrivial=[])
 
 prop("C19",
-     mix=[("c19", "default", 3), ("c19", "small", 1), ("c19", "batch1", 1)],
-     quick_mix=[("c19", "default", 1)],
+     mix=[("c19", "default", 3), ("c19", "small", 1), ("c19", "batch1", 1), ("c19", "big", 1)],
+     quick_mix=[("c19", "default", 3), ("c19", "big", 1)],
      quick_s=30, thorough_s=600, opts={"memprop": "C19"},
      rule="two endpoints over the simulated transport: an independent client (system zlib raw deflate/inflate, own RFC 7692 negotiation checker) and the real websocket.c + compression.c + bundled zlib behind a small echo harness started with compression level 1-3 "
           "(the shipped main() never enables compression; main.c and linux_io.c are replaced by sim/c19_harness.c). Seeded: extension offers (any subset, order and spelling of the four parameters, legal and illegal values, several offers, none), "
